@@ -80,8 +80,11 @@ func GenTag(c *engine.Chooser, t Tag, budget int, a *Alphabet) *Node {
 func genArr(c *engine.Chooser, a *Alphabet, width uint) []int64 {
 	l := a.ArrLens[c.Pick(len(a.ArrLens))]
 	out := make([]int64, l)
+	// contents differ from array to array within one tree (the position on the choice tape is
+	// the salt), so that aliasing between decoded arrays is visible
+	salt := int64(c.Depth())
 	for i := range out {
-		v := a.ArrVals[i%len(a.ArrVals)]
+		v := a.ArrVals[(i+int(salt))%len(a.ArrVals)] + salt*0x0101010101010101
 		switch width {
 		case 8:
 			v = int64(int8(v))
